@@ -180,6 +180,11 @@ def run_one(seed: int, tid: int, mode: str):
                 valid = False
             elif not valid and not reject_mode and orphan and rng.random() < 0.25:
                 sel = [rng.choice(orphan)]                 # a child on its own while a parent is unfinished: must be rejected, never executed
+            elif not valid and multi and legal and len(legal) < len(ops) and rng.random() < (0.7 if any(ops[i].state() == S.FAILED for i in legal) else 0.1):
+                # an operator that can be taken (pending, or failed and up for a retry) listed AHEAD of one that cannot (assigned, running,
+                # suspending, completed): the request is refused after the first one was already touched - what it is left as is observed
+                first = [i for i in legal if ops[i].state() == S.FAILED] or legal
+                sel = [rng.choice(first), rng.choice([i for i in range(len(ops)) if i not in legal])]
             elif valid or reject_mode or rng.random() < 0.9:
                 if not legal:
                     continue
